@@ -127,3 +127,45 @@ INIT_EMPTY = REG.add(Contract(
     loops={0: Loop({"nothing to visit": "initialised_empty(self)"}, modifies=["_w"])},
     spec_fns=dict(initialised_empty=initialised_empty), props=("C12", "C08"), note="instance MetaMolecule(force_field=..., mol_name=...)"))
 CONTRACTS = [INIT_FROM_GRAPH, INIT_EMPTY]
+
+
+# ---- conformance test hooks (vlib/selftest.py): random graph data, the real constructor, the real object read back -------------------
+def _witness_init(rnd):
+    n = rnd.randint(0, 5)
+    keys = rnd.sample(range(8), n)
+    nodes = {k: {"resname": rnd.choice([None, 3, 4]), "resid": rnd.choice([None, rnd.randint(1, 9)]), "build": None, "backmap": None} for k in keys}
+    adj = set()
+    for a in keys:
+        for b in keys:
+            if a < b and rnd.random() < 0.4:
+                adj |= {(a, b), (b, a)}
+    g = {"nodes": nodes, "adj": adj}
+    blank = {"nodes": {}, "adj": set(), "force_field": 0, "mol_name": 0, "molecule": None, "root": None, "dfs": False, "max_resid": 0, "_MetaMolecule__search_tree": None}
+    return {"self": blank, "args": (g,), "kwargs": {"force_field": 1, "mol_name": 2}}, {"__window__": 12}
+
+
+def _adapt_init(a):
+    import networkx as nx
+    from polyply.src.meta_molecule import MetaMolecule
+    g = nx.Graph()
+    d = a["args"][0]
+    for k, at in d["nodes"].items():
+        g.add_node(k, **{f: v for f, v in at.items() if v is not None})
+    g.add_edges_from((x, y) for x, y in d["adj"] if x < y)
+    return {"self": MetaMolecule.__new__(MetaMolecule), "args": (g,), "kwargs": dict(a["kwargs"])}
+
+
+def _call_init(fn, ra):
+    return fn(ra["self"], *ra["args"], **ra["kwargs"])
+
+
+def _unadapt_init(ra, res):
+    m = ra["self"]
+    nodes = {k: {f: d.get(f) for f in ("resname", "resid", "build", "backmap")} for k, d in m.nodes(data=True)}
+    adj = {(a, b) for a, b in m.edges} | {(b, a) for a, b in m.edges}
+    return {"self": {"nodes": nodes, "adj": adj, "force_field": m.force_field, "mol_name": m.mol_name, "molecule": m.molecule, "root": m.root, "dfs": m.dfs,
+                     "max_resid": m.max_resid, "_MetaMolecule__search_tree": None}}
+
+
+INIT_FROM_GRAPH.witness, INIT_FROM_GRAPH.adapt, INIT_FROM_GRAPH.call, INIT_FROM_GRAPH.unadapt = _witness_init, _adapt_init, _call_init, _unadapt_init
+INIT_FROM_GRAPH.modifies = list(INIT_FROM_GRAPH.modifies)
